@@ -192,6 +192,9 @@ func (g *Gen) attesters() []string {
 	}
 	return r
 }
+// width boundaries of the integer types the module converts between (int32/uint32/int64/uint64)
+var u64Edges = []uint64{1<<31 - 1, 1 << 31, 1<<32 - 1, 1 << 32, 1<<63 - 1, 1 << 63, 1<<64 - 1}
+
 func (g *Gen) threshold() uint32 {
 	t, _ := g.w().k.GetSignatureThreshold(g.w().ctx)
 	return t.Amount
@@ -261,6 +264,30 @@ func pad32(b []byte) []byte {
 func (g *Gen) rand32() []byte {
 	b := make([]byte, 32)
 	g.rng.Read(b)
+	return b
+}
+
+// otherRecipient: a 32-byte recipient that is NOT the padded module address -- random, or one of the
+// near misses (module account in the low 20 bytes under non-zero padding, module account left-aligned,
+// one byte off at either end, a truncated module account re-padded).
+func (g *Gen) otherRecipient() []byte {
+	if g.chance(0.6) {
+		return g.rand32()
+	}
+	b := append([]byte{}, types.PaddedModuleAddress...)
+	switch g.pick(5) {
+	case 0:
+		g.rng.Read(b[:12])
+		b[g.pick(12)] |= 1
+	case 1:
+		b = append(append([]byte{}, types.ModuleAddress...), make([]byte, 12)...)
+	case 2:
+		b[31] ^= 1
+	case 3:
+		b[0] = 1
+	default:
+		b = pad32(types.ModuleAddress[1:])
+	}
 	return b
 }
 
